@@ -354,19 +354,13 @@ func (te *tableEngine) refreshNextBBOrderPlayerIDs(currentBBSeatID, tableMaxSeat
 }
 
 func (te *tableEngine) calcGamePlayerIndexes(rule string, maxSeatCount, currentDealerSeatID, currentSBSeatID, currentBBSeatID int, seatMap []int, players []*TablePlayerState) []int {
-	playerLen := len(players)
 	gamePlayerIndexes := make([]int, 0)
-	playerPositions := make(map[int][]string) // key: player_index, value: positions
 	if rule == CompetitionRule_ShortDeck {
-		dealerPlayerIdx := seatMap[currentDealerSeatID]
-		for i := dealerPlayerIdx; i < playerLen+dealerPlayerIdx; i++ {
-			playerIdx := i % playerLen
-			if players[playerIdx].IsParticipated {
-				positions := make([]string, 0)
-				if i == dealerPlayerIdx {
-					positions = append(positions, Position_Dealer)
-				}
-				playerPositions[playerIdx] = positions
+		// walk the seats clockwise from the dealer seat (not the player list, which is in arrival order)
+		for i := currentDealerSeatID; i < len(seatMap)+currentDealerSeatID; i++ {
+			seatID := i % len(seatMap)
+			playerIdx := seatMap[seatID]
+			if playerIdx >= 0 && players[playerIdx].IsParticipated {
 				gamePlayerIndexes = append(gamePlayerIndexes, playerIdx)
 			}
 		}
